@@ -215,6 +215,7 @@ fn cmd_check(args: &[String]) -> i32 {
         .with("evaluations", g("evaluations"))
         .with("distinct_nontrivial", g("distinct_nontrivial"))
         .with("nontrivial_evaluations", g("nontrivial"))
+        .with("distinct_counting", g("distinct_counting"))
         .with("rule", Json::str(prop.rule()))
         .with("samples", g("samples"))
         .with("exhaustive", Json::Bool(prop.exhaustive()))
